@@ -539,6 +539,67 @@ def rule_x(repo, run):
     import_rules(run, R, c05, repo, {"C05.R17"})
 
 
+def rule_r7(repo, run):
+    R = run.rule("C08.R7", "the variants for default arguments of a function template are made from its instantiations: "
+                           "has_default_args never clones a node that still has template_arguments, the instantiations get their "
+                           "variants, and - being left out of the overload search - the variants are named where they are made")
+    gm = repo.module("generate")
+    df = gm.func("GenFunctions.define_function_suffix")
+    loops = [l for l in ast.walk(df) if isinstance(l, ast.For) and isinstance(l.target, ast.Name)
+             and any(isinstance(c, ast.Call) and (pyflow.call_name(c) or "") == "self.template_function" for c in ast.walk(l))]
+    if len(loops) != 1:
+        raise AnalysisError("C08.R7: the loop of define_function_suffix that instantiates templates was not found")
+    lp = loops[0]
+    var = lp.target.id
+    calls = [c for c in ast.walk(lp) if isinstance(c, ast.Call) and (pyflow.call_name(c) or "") == "self.has_default_args" and c.args]
+    if not calls:
+        raise AnalysisError("C08.R7: define_function_suffix no longer calls has_default_args")
+    tmpl = "%s.template_arguments" % var
+    # O1: the loop variable is cloned for its default arguments only when it is not a template
+    n = 0
+    for c in calls:
+        if not pyflow.is_name(c.args[0], var):
+            continue
+        n += 1
+        atoms = pyflow.path_atoms(c, stop=lp, seg=ast.unparse)
+        guards = set((ast.unparse(t), pol) for t, pol in pyflow.early_exit_guards(df, c))
+        ok = (tmpl, False) in atoms or (tmpl, False) in guards
+        run.check(R, "generate.GenFunctions.define_function_suffix:has_default_args(%s):not-a-template" % var, ok,
+                  "has_default_args(%s) clones the node for each default argument before it is instantiated: the clones of "
+                  "`template<typename T> void f(T a, int b = 1)` keep the parameter of type T, are never instantiated and the C "
+                  "wrapper ends in TypeError (gen_arg_as_c)" % var, gm.loc(c))
+    # O2: the instantiations get their variants
+    tf = [c for c in ast.walk(lp) if isinstance(c, ast.Call) and (pyflow.call_name(c) or "") == "self.template_function" and len(c.args) > 1]
+    sinks = set(a.id for c in tf for a in c.args[1:] if isinstance(a, ast.Name))
+    inst_vars = set()
+    for l2 in ast.walk(lp):
+        if isinstance(l2, ast.For) and isinstance(l2.iter, ast.Name) and l2.iter.id in sinks and isinstance(l2.target, ast.Name):
+            inst_vars.add(l2.target.id)
+    into_ordered = any(pyflow.is_name(a, "ordered_functions") for c in tf for a in c.args[1:])
+    inst_calls = [c for c in calls if isinstance(c.args[0], ast.Name) and c.args[0].id in inst_vars]
+    n += 1
+    run.check(R, "generate.GenFunctions.define_function_suffix:instantiations:default-variants", bool(inst_calls),
+              "template_function's instantiations are %s and has_default_args is never called on them: `f<int>(a)` (b defaulted) "
+              "has no wrapper" % ("appended to ordered_functions directly" if into_ordered else "not followed"), gm.loc(tf[0]) if tf else gm.loc(lp))
+    # O3: the overload search skips template instantiations, so somebody else names their variants
+    skipped = False
+    for l2 in ast.walk(df):
+        if isinstance(l2, ast.For) and l2 is not lp and isinstance(l2.target, ast.Name):
+            for i in l2.body:
+                if isinstance(i, ast.If) and ast.unparse(i.test) == "%s.template_arguments" % l2.target.id and \
+                        any(isinstance(x, ast.Continue) for x in i.body):
+                    skipped = True
+    if skipped and inst_calls:
+        named = [a for a in ast.walk(lp) if isinstance(a, ast.Assign) and isinstance(a.targets[0], ast.Attribute)
+                 and a.targets[0].attr == "function_suffix"]
+        n += 1
+        run.check(R, "generate.GenFunctions.define_function_suffix:instantiations:variants-named", bool(named),
+                  "the variants of an instantiation are not part of the overload search (`if function.template_arguments: continue`) "
+                  "and nothing in the instantiation branch sets their function_suffix: f<int>(a), f<int>(a, b) get one name",
+                  gm.loc(inst_calls[0]))
+    run.floor(R, "default-argument / template orderings", n, 2)
+
+
 def run(repo, run, tier):
     rule_r1(repo, run)
     rule_r2(repo, run)
@@ -546,3 +607,4 @@ def run(repo, run, tier):
     rule_r4(repo, run)
     rule_r5(repo, run)
     rule_x(repo, run)
+    rule_r7(repo, run)
